@@ -44,8 +44,41 @@ for _pid in ("C01", "C02", "C03", "C04", "C05", "C16"):
         "technique": "TLA+ state machine + ghost model checked by TLC; state-graph replay on the real classes; TLC trace validation of recorded executions",
     }
 
+def c06_run(pid, tier, seed):
+    """Pair.tla product walk + recorded random pairs on larger graphs validated by PairTrace.tla."""
+    import machine
+    violations, cov, assumptions = machine_run(pid, tier, seed)
+    gh = vf.build_gh("o1")
+    q = tier == "quick"
+    total = {"records": 0, "accepted": 0, "equal_pairs": 0, "tlc_states": 0}
+    os.makedirs(vf.REPLAYS, exist_ok=True)
+    for group in ("dn", "un", "dl", "ul", "dm", "um", "dw", "uw"):
+        fams = None if not q else ([0, 4] if group in ("dl", "ul") else None)
+        r = machine.record_pairs(pid, group, gh, seed, 30 if q else 300, families=fams)
+        for k in total:
+            total[k] += r[k]
+        for c in r["crashes"]:
+            path = os.path.join(vf.REPLAYS, "%s-pairs-%s-crash%d.json" % (pid, group, c["family_index"]))
+            with open(path, "w") as f:
+                json.dump(c, f, indent=1)
+            violations.append({"replay": path, "what": "pair recorder died on %s (rc %s)" % (group, c["rc"])})
+        for k, rej in enumerate(r["rejected"]):
+            path = os.path.join(vf.REPLAYS, "%s-pairs-%s-record%d.json" % (pid, group, k))
+            with open(path, "w") as f:
+                json.dump({"kind": "pairrecord", "group": group, "family_index": rej["family_index"], "record": rej["record"]}, f, indent=1)
+            rec = rej["record"]
+            violations.append({"replay": path, "what": "operator== verdict rejected by TLC (%s, %s): a==b %s, b==a %s, graphs %s" %
+                               (group, rec.get("how"), rec.get("e12"), rec.get("e21"),
+                                "equal" if rec.get("a") == rec.get("b") else "different")})
+    cov["pair_records_validated_by_tlc"] = total["accepted"]
+    cov["pair_records_showing_equal_graphs"] = total["equal_pairs"]
+    cov["traces_validated_against_impl"] = cov.get("traces_validated_against_impl", 0) + total["accepted"]
+    cov["states"] += total["tlc_states"]
+    return violations, cov, assumptions
+
+
 PROPERTIES["C06"] = {
-    "run": machine_run, "level": "model_checking",
+    "run": c06_run, "level": "model_checking",
     "text": "Pair.tla: the product of two independent state machines of one class plus copy/assign; TLC checks in every "
             "reachable PAIR of states (= every pair of histories over the constants) that operator== as the code computes it "
             "(size, cached edge count, label-map equality, mutual list inclusion) holds iff the ghosts denote the same graph, "
